@@ -7,19 +7,22 @@ Inductive case :=
 | CRate (limit period ttl : Z) (h : list Z) (ran : list bool)
 | CSlide (limit period : Z) (h : list Z) (ran : list bool)
 (* per call: instant, what the function does; observed: ran? , is the breaker open right after the call? *)
-| CBreaker (rate period ttl min_calls : Z) (h : list (Z * bout)) (o : list (bool * bool)).
+(* (a call starts at its instant and the function takes `dur` ticks before it returns or raises) *)
+| CBreaker (rate period ttl min_calls : Z) (h : list (Z * bout * Z)) (o : list (bool * bool)).
 
 Definition K : key := "k".
 Fixpoint run_rate (m : tmap) limit period ttl (h : list Z) : list bool :=
   match h with [] => [] | t :: r => let '(m', b) := rate_call m t K limit period ttl in b :: run_rate m' limit period ttl r end.
 Fixpoint run_slide (m : tmap) limit period (h : list Z) : list bool :=
   match h with [] => [] | t :: r => let '(m', b) := slide_call m t K limit period in b :: run_slide m' limit period r end.
-Fixpoint run_breaker (m : tmap) rate period ttl mc (h : list (Z * bout)) : list (bool * bool) :=
+Fixpoint run_breaker (m : tmap) rate period ttl mc (h : list (Z * bout * Z)) : list (bool * bool) :=
   match h with
   | [] => []
-  | (t, o) :: r => let '(m', res, _) := breaker_call m t K rate period ttl mc o in
-                   (match res with BRan _ => true | BOpen => false end, isSome (s_look m' t (open_key K)))
-                   :: run_breaker m' rate period ttl mc r
+  | (t, o, dur) :: r =>
+      let '(m', res, _) := breaker_call_at m t (t + dur) K rate period ttl mc o in
+      let fin := match res with BRan _ => t + dur | BOpen => t end in
+      (match res with BRan _ => true | BOpen => false end, isSome (s_look m' fin (open_key K)))
+      :: run_breaker m' rate period ttl mc r
   end.
 
 (* ---------- oracles ---------- *)
@@ -44,23 +47,25 @@ Fixpoint ok_slide limit period (done : list Z) (h : list Z) (ran : list bool) : 
       ok_slide limit period (if b then t :: done else done) h' ran'
   | _, _ => false
   end.
-(* breaker: ran = list of (instant, failed with a listed exception) of the calls that got past the open check *)
+(* breaker: T = start instants of the calls that got past the open check, F = instants at which those of them that failed
+   with a listed exception failed.  Calls are counted in the period before the call's start, failures in the period before
+   the failure (for an instantaneous call both are the property's "last period"); exact up to instants lying exactly `period` back *)
 Definition rule rate mc (total fails : Z) : bool := negb (total <? mc) && (rate * total <=? fails * 100).
-Fixpoint ok_breaker rate period ttl mc (open_until : option Z) (ran : list (Z * bool)) (h : list (Z * bout)) (o : list (bool * bool)) : bool :=
+Fixpoint ok_breaker rate period ttl mc (open_until : option Z) (T F : list Z) (h : list (Z * bout * Z)) (o : list (bool * bool)) : bool :=
   match h, o with
   | [], [] => true
-  | (t, x) :: h', (r, op) :: o' =>
+  | (t, x, dur) :: h', (r, op) :: o' =>
       let is_open := match open_until with Some u => t <? u | None => false end in
-      if is_open then negb r && op && ok_breaker rate period ttl mc open_until ran h' o'
+      if is_open then negb r && op && ok_breaker rate period ttl mc open_until T F h' o'
       else
-        let cnt (strict : bool) (l : list (Z * bool)) := Z.of_nat (length (filter (fun e => if strict then t - period <? fst e else t - period <=? fst e) l)) in
+        let fin := t + dur in
+        let cnt (strict : bool) (at_ : Z) (l : list Z) := Z.of_nat (length (filter (fun e => if strict then at_ - period <? e else at_ - period <=? e) l)) in
         let failed := match x with BFailListed => true | _ => false end in
-        let fl := filter snd ran in
-        let trip_lo := failed && rule rate mc (cnt true ran + 1) (cnt true fl + 1) in
-        let trip_hi := failed && rule rate mc (cnt false ran + 1) (cnt false fl + 1) in
-        let trip_mix := failed && rule rate mc (cnt false ran + 1) (cnt true fl + 1) in
+        let trip_lo := failed && rule rate mc (cnt true t T + 1) (cnt true fin F + 1) in
+        let trip_hi := failed && rule rate mc (cnt false t T + 1) (cnt false fin F + 1) in
+        let trip_mix := failed && rule rate mc (cnt false t T + 1) (cnt true fin F + 1) in
         r && (Bool.eqb op trip_lo || Bool.eqb op trip_hi || Bool.eqb op trip_mix) &&
-        ok_breaker rate period ttl mc (if op then Some (t + ttl) else None) ((t, failed) :: ran) h' o'
+        ok_breaker rate period ttl mc (if op then Some (fin + ttl) else None) (t :: T) (if failed then fin :: F else F) h' o'
   | _, _ => false
   end.
 
@@ -69,7 +74,7 @@ Definition judge (c : case) : verdict :=
   match c with
   | CRate limit period ttl h ran => (list_eqb Bool.eqb (run_rate empty limit period ttl h) ran, ok_rate limit period ttl None 0 h ran, [])
   | CSlide limit period h ran => (list_eqb Bool.eqb (run_slide empty limit period h) ran, ok_slide limit period [] h ran, [])
-  | CBreaker rate period ttl mc h o => (list_eqb bb_eqb (run_breaker empty rate period ttl mc h) o, ok_breaker rate period ttl mc None [] h o, [])
+  | CBreaker rate period ttl mc h o => (list_eqb bb_eqb (run_breaker empty rate period ttl mc h) o, ok_breaker rate period ttl mc None [] [] h o, [])
   end.
 Definition explain (c : case) :=
   match c with
